@@ -227,7 +227,60 @@ def _execute(machine: Machine, cfg: dict, ops_iter, gen_mode: bool, st: Streams 
     )
 
 
+def isolated(fn, *args):
+    """Run fn(*args) in a forked child and return its (picklable) result.
+
+    Every simulated run starts from the same pristine interpreter state (modules imported, no
+    library code executed yet), so process-global state of the SUT - module-level caches,
+    counters in closures - cannot leak from one run into the next, and a replay in a fresh
+    interpreter sees exactly what the run saw.
+    """
+    import pickle
+
+    rfd, wfd = os.pipe()
+    pid = os.fork()
+    if pid == 0:
+        code = 0
+        try:
+            os.close(rfd)
+            try:
+                res = fn(*args)
+            except HarnessTimeout:
+                res = RunResult(ok=False, harness="timeout", failure=None)
+            except BaseException:  # noqa
+                res = RunResult(ok=False, harness=traceback.format_exc(), failure=None)
+            data = pickle.dumps(res)
+            with os.fdopen(wfd, "wb") as fh:
+                fh.write(data)
+        except BaseException:  # noqa
+            code = 3
+        finally:
+            os._exit(code)
+    os.close(wfd)
+    chunks = []
+    with os.fdopen(rfd, "rb") as fh:
+        while True:
+            b = fh.read(1 << 20)
+            if not b:
+                break
+            chunks.append(b)
+    os.waitpid(pid, 0)
+    if not chunks:
+        return RunResult(ok=False, harness="child died without a result", failure=None)
+    return pickle.loads(b"".join(chunks))
+
+
 def generate_run(machine_cls, prop: str, tier: str, verif_seed: int, idx: int) -> RunResult:
+    res = isolated(_generate_run, machine_cls, prop, tier, verif_seed, idx)
+    res.setdefault("idx", idx)
+    return res
+
+
+def replay_ops(machine_cls, prop: str, tier: str, cfg: dict, ops: list) -> RunResult:
+    return isolated(_replay_ops, machine_cls, prop, tier, cfg, ops)
+
+
+def _generate_run(machine_cls, prop: str, tier: str, verif_seed: int, idx: int) -> RunResult:
     seed = run_seed(verif_seed, prop, idx)
     st = Streams(seed)
     m = machine_cls(prop, tier)
@@ -239,7 +292,7 @@ def generate_run(machine_cls, prop: str, tier: str, verif_seed: int, idx: int) -
     return res
 
 
-def replay_ops(machine_cls, prop: str, tier: str, cfg: dict, ops: list) -> RunResult:
+def _replay_ops(machine_cls, prop: str, tier: str, cfg: dict, ops: list) -> RunResult:
     m = machine_cls(prop, tier)
     return _execute(m, cfg, iter(ops), False, None)
 
@@ -268,7 +321,7 @@ def shrink(machine_cls, prop: str, tier: str, cfg: dict, ops: list, failure: dic
             r = replay_ops(machine_cls, prop, tier, cfg, cand)
         except Exception:  # a candidate that breaks the harness is not a reproduction
             return False
-        return same_class(r["failure"], failure)
+        return same_class(r.get("failure"), failure)
 
     # ddmin
     n = 2
@@ -362,12 +415,8 @@ def _worker(args):
     faulthandler.enable()
     out = []
     for idx in idxs:
-        try:
-            r = generate_run(machine_cls, prop, tier, verif_seed, idx)
-        except HarnessTimeout:
-            r = RunResult(ok=False, harness="timeout", idx=idx, failure=None)
-        except Exception:
-            r = RunResult(ok=False, harness=traceback.format_exc(), idx=idx, failure=None)
+        r = generate_run(machine_cls, prop, tier, verif_seed, idx)
+        r["idx"] = idx
         if r.get("ok") or r.get("harness"):
             # keep results small: ops only for a few sample runs
             if idx % 97 != 0:
